@@ -112,6 +112,107 @@ Theorem C06_comparator_runs_expansion_full : forall (c : cfg) (h : list hitem) (
 Proof. exact check_items_state. Qed.
 Print Assumptions C06_comparator_runs_expansion_full.
 
+(* ---- blocks committed while a DA call is in flight (Model/SubmitterConc.v) ------------------------------------ *)
+(* The aggregator commits blocks while a submission iteration is under way (a DA call takes up to 60 s).  Histories
+   [list citem]: the items above (CH) and  CTickP k scp  = one iteration of the k loop in which every DA answer of scp
+   comes with the blocks committed between the moment that call is made and the moment its answer is processed; the
+   chain is threaded through the attempt loop of submitToDA (SubmitterConc.submit_p).  [crun] runs such a history. *)
+From Verif Require Import Model.SubmitterConc Proofs.SubmitterConcProofs.
+
+(* Every history with in-flight commits reaches exactly the state of a sequential history: each such iteration acts as
+   the iteration on the chain as it was when the iteration started, followed by the commits of the answers it consumed
+   (nothing the code does after an answer reads the store). *)
+Theorem C06_inflight_history_is_sequential_full : forall (c : cfg) (init : N) (h : list citem),
+  crun c init h = run c init (cexpand c (boot init) h).
+Proof. exact crun_is_run. Qed.
+Print Assumptions C06_inflight_history_is_sequential_full.
+
+(* Safety (the statement of C06_watermark_sound_full, word for word) at every moment of every history with in-flight
+   commits. *)
+Theorem C06_watermark_sound_inflight_full : forall (c : cfg) (init : N) (hist : list citem) (k : kind),
+  1 <= init ->
+  let s := crun c init hist in
+  let sd := get_side k s in
+  vol sd = resume (s_init s) (meta sd) /\ vol sd = N.max (meta0 (meta sd)) (s_init s - 1) /\
+  vol sd <= height s /\
+  (forall m, s_init s <= m <= vol sd -> relevant k s m -> In m (acc sd)) /\
+  (forall x, In x (acc sd) -> s_init s <= x <= height s /\ relevant k s x /\
+             forall m, s_init s <= m < x -> relevant k s m -> In m (acc sd)) /\
+  (forall cl, In cl (calls sd) ->
+     c_vol cl = resume (s_init s) (c_meta cl) /\ StronglySorted N.lt (c_hs cl) /\
+     forall x, In x (c_hs cl) ->
+       c_vol cl < x <= height s /\ s_init s <= x /\ relevant k s x /\
+       forall m, c_vol cl < m < x -> relevant k s m -> In m (c_hs cl)).
+Proof. exact watermark_sound_conc. Qed.
+Print Assumptions C06_watermark_sound_inflight_full.
+
+Theorem C06_watermark_monotone_inflight_full : forall (c : cfg) (init : N) (h1 h2 : list citem) (k : kind),
+  1 <= init ->
+  vol (get_side k (crun c init h1)) <= vol (get_side k (crun c init (h1 ++ h2))) /\
+  meta0 (meta (get_side k (crun c init h1))) <= meta0 (meta (get_side k (crun c init (h1 ++ h2)))).
+Proof. exact watermark_monotone_conc. Qed.
+Print Assumptions C06_watermark_monotone_inflight_full.
+
+(* The point of it.  From any reachable state s: after an iteration of the k loop during which blocks were committed,
+   the k watermark (in memory and recorded) is at most the chain height the iteration STARTED from, and so is every
+   height it put on the DA layer — a block committed after the batch was built is never stepped over; it is pending
+   for the next iteration (C06_eventually_inflight_full). *)
+Theorem C06_inflight_block_not_stepped_over_full : forall (c : cfg) (init : N) (h : list citem) (k : kind) (scp : pscript),
+  1 <= init ->
+  let s := crun c init h in
+  let s' := cstep_state c s (CTickP k scp) in
+  vol (get_side k s') <= height s /\ meta0 (meta (get_side k s')) <= height s /\
+  (forall x, In x (acc (get_side k s')) -> x <= height s) /\
+  height s <= height s'.
+Proof. exact inflight_not_stepped_over. Qed.
+Print Assumptions C06_inflight_block_not_stepped_over_full.
+
+(* Liveness from every state reachable with in-flight commits (the statement of C06_eventually_full). *)
+Theorem C06_eventually_inflight_full : forall (c : cfg) (init : N) (h : list citem) (k : N) (fails sc : list outcome) (kd : kind),
+  1 <= init ->
+  forallb nonprogress fails = true -> (length fails < max_attempts)%nat ->
+  let s := crun c init h in
+  height s <= k ->
+  let s' := fst (step c s (ITick kd (fails ++ OAccept k :: sc))) in
+  (forall m, s_init s <= m <= height s -> relevant kd s m -> In m (acc (get_side kd s'))) /\
+  (kd = KHeader -> vol (s_h s') = height s).
+Proof. exact eventually_conc. Qed.
+Print Assumptions C06_eventually_inflight_full.
+
+(* ---- the loops keep retrying ------------------------------------------------------------------------------------ *)
+(* HeaderSubmissionLoop / DataSubmissionLoop go round until their context ends.  For EVERY script of DA answers sc —
+   failures of every kind, accepted-but-acknowledgement-lost, and "cancelled" answers (context.Canceled / the DA
+   sentinel coming back from the DA node while the node's own context is alive) anywhere in it: when the loop has run,
+   either it has asked for every answer of sc (the script's end is the end of its context), or every committed relevant
+   block is on the DA layer.  It never sits on pending work while the DA layer still answers.  [loop_left] = the
+   answers not asked for; the harness compares its length with what the DA double has left. *)
+Theorem C06_loop_retries_until_context_ends_full : forall (c : cfg) (init : N) (h : list citem) (kd : kind) (sc : list outcome),
+  1 <= init ->
+  let s := crun c init h in
+  let s' := fst (step c s (ILoop kd sc)) in
+  loop_left c s kd sc = [] \/
+  (forall m, s_init s <= m <= height s -> relevant kd s m -> In m (acc (get_side kd s'))).
+Proof. exact loop_retries_conc. Qed.
+Print Assumptions C06_loop_retries_until_context_ends_full.
+
+(* the instance the wording of the property names: a "cancelled" answer, then a DA layer that accepts *)
+Theorem C06_loop_survives_cancelled_answer_full : forall (c : cfg) (init : N) (hist : list item) (kd : kind) (b : bool) (k : N) (sc : list outcome),
+  1 <= init ->
+  let s := run c init hist in
+  height s <= k ->
+  let s' := fst (step c s (ILoop kd (OCancel b :: OAccept k :: sc))) in
+  forall m, s_init s <= m <= height s -> relevant kd s m -> In m (acc (get_side kd s')).
+Proof. exact loop_survives_cancel. Qed.
+Print Assumptions C06_loop_survives_cancelled_answer_full.
+
+(* the comparator (Check.SubmitterCheck.check_citems, what [mismatches] evaluates) ends in — and compares the
+   observations item by item against — the states of [crun_from] *)
+Theorem C06_comparator_walks_history_full : forall (c : cfg) (h : list citem) (os : list Check.SubmitterCheck.iout) (s : state),
+  length h = length os ->
+  fst (Check.SubmitterCheck.check_citems c s h os) = crun_from c s h.
+Proof. exact check_citems_state. Qed.
+Print Assumptions C06_comparator_walks_history_full.
+
 (* ---- non-vacuity ------------------------------------------------------------------------------------ *)
 Definition cf := {| c_bt := 1000; c_ttl := 2 |}.
 
@@ -186,6 +287,36 @@ Example ex_idle_stretch :
   map c_hs (firstn 2 (calls (s_d sd))) = [[302]; [302]] /\ vol (s_d sd) = 302 /\ meta (s_d sd) = Some 302 /\
   let sh := fst (step cf s (ITick KHeader [OFail FErr; OFail FNotIncluded; OFail FDeadline; OAccept 302])) in
   map (fun cl => length (c_hs cl)) (firstn 4 (calls (s_h sh))) = [301; 301; 301; 301]%nat /\ vol (s_h sh) = 302.
+Proof. vm_compute. repeat split; try reflexivity; try discriminate. Qed.
+
+(* in-flight commit: blocks 1 (txs) 2 (empty) 3 (txs); a data iteration whose first DA call fails and whose second is
+   accepted; while the first is in flight block 4 (txs) is committed, while the second is in flight block 5 (empty) and
+   block 6 (txs).  The batch is [1;3] in both calls; afterwards the data watermark is 3 — not 4, not 6 —, the chain
+   height 6, and the next accepting iteration carries exactly [4;6]. *)
+Example ex_inflight :
+  let h := [CH (HI (IPublish true)); CH (HI (IPublish false)); CH (HI (IPublish true));
+            CTickP KData [(OFail FErr, [true]); (OAccept 1000, [false; true]); (OAccept 1000, [true])]] in
+  let s := crun cf 1 h in
+  height s = 6 /\ s_chain s = [true; false; true; true; false; true] /\
+  vol (s_d s) = 3 /\ meta (s_d s) = Some 3 /\ rev (acc (s_d s)) = [1; 3] /\
+  map c_hs (rev (calls (s_d s))) = [[1; 3]; [1; 3]] /\
+  cexpand cf (boot 1) h = [IPublish true; IPublish false; IPublish true;
+                           ITick KData [OFail FErr; OAccept 1000; OAccept 1000]; IPublish true; IPublish false; IPublish true] /\
+  let s2 := fst (step cf s (ITick KData [OAccept 1000])) in
+  map c_hs (firstn 1 (calls (s_d s2))) = [[4; 6]] /\ vol (s_d s2) = 6 /\ rev (acc (s_d s2)) = [1; 3; 4; 6].
+Proof. vm_compute. repeat split; try reflexivity; try discriminate. Qed.
+
+(* the loop and a "cancelled" answer: three headers pending; the DA answers: error, cancelled (sentinel), cancelled,
+   accept.  Four calls, all with [1;2;3]; nothing of the script is left; watermark 3.  With nothing pending the loop
+   leaves its script untouched. *)
+Example ex_loop_cancel :
+  let s := run cf 1 [IPublish true; IPublish false; IPublish true] in
+  let sc := [OFail FErr; OCancel true; OCancel false; OAccept 1000] in
+  let s' := fst (step cf s (ILoop KHeader sc)) in
+  loop_left cf s KHeader sc = [] /\ vol (s_h s') = 3 /\
+  map c_hs (rev (calls (s_h s'))) = [[1; 2; 3]; [1; 2; 3]; [1; 2; 3]; [1; 2; 3]] /\
+  loop_left cf s' KHeader sc = sc /\
+  loop_left cf s KData [OCancel false; OAccept 1000; OFail FErr] = [OFail FErr].
 Proof. vm_compute. repeat split; try reflexivity; try discriminate. Qed.
 
 (* FROM TRANSLATED CODE.  The recorded last-submitted height never decreases: pendingBase.setLastSubmittedHeight,
